@@ -19,7 +19,7 @@ THIRD = "cccccccccc"
 
 class Sim:
     def __init__(self, modes=("set", "set"), nmsg=(1, 1), delegated=(True, True), adversary=(), eager=True,
-                 welcome_error=False, wrong_code=False, max_opens=3, appids=("appid", "appid"), auto_get=True, getters=False):
+                 welcome_error=False, wrong_code=False, max_opens=3, appids=("appid", "appid"), auto_get=True, getters=False, helper_calls=False):
         self.modes, self.nmsg, self.adv, self.max_opens = modes, nmsg, set(adversary), max_opens
         self.world = World()
         self.world.__enter__()
@@ -28,6 +28,8 @@ class Sim:
             self.world.server.welcome = {"error": "go away"}
         self.cl = [Client(self.world, "AB"[i], delegated=delegated[i], appid=appids[i], auto_get=auto_get) for i in range(len(modes))]
         self.getters = getters      # deferred API: get_*() calls are schedule actions
+        self.helper_calls = helper_calls   # input_code() helper: refresh_nameplates()/get_*_completions() are schedule actions
+        self.hcalls = [dict() for _ in modes]
         self.got = [dict() for _ in modes]
         self.api = [dict(code=False, sent=0, closed=False, helper=None, np=False, words=False, opens=0) for _ in modes]
         self.wrong_code = wrong_code
@@ -93,6 +95,15 @@ class Sim:
                     acts.append(("allocate", X))
                 elif m == "input":
                     acts.append(("input", X))
+            if self.helper_calls and m == "input" and a["helper"] is not None and not a["closed"]:
+                h = self.hcalls[i]
+                if not a["np"]:
+                    if h.get("refresh", 0) < 2:
+                        acts.append(("helper", X, "refresh"))
+                    if h.get("np_completions", 0) < 1:
+                        acts.append(("helper", X, "np_completions"))
+                elif not a["words"] and h.get("word_completions", 0) < 1:
+                    acts.append(("helper", X, "word_completions"))
             partner_allocates = any(self.modes[j] == "allocate" for j in range(len(self.modes)) if j != i)
             if m == "input" and a["helper"] is not None and not a["closed"] and (self.known_code() or not partner_allocates):
                 if not a["np"]:
@@ -177,6 +188,16 @@ class Sim:
             code = self.known_code() or CODE
             words = code.split("-", 1)[1] + ("x" if self.wrong_code else "")
             c._call("helper:choose_words", a["helper"].choose_words, words)
+        elif kind == "helper":
+            what = act[2]
+            self.hcalls[i][what] = self.hcalls[i].get(what, 0) + 1
+            hp = a["helper"]
+            if what == "refresh":
+                c._call("helper:refresh_nameplates", hp.refresh_nameplates)
+            elif what == "np_completions":
+                c._call("helper:get_nameplate_completions", hp.get_nameplate_completions, "")
+            else:
+                c._call("helper:get_word_completions", hp.get_word_completions, "")
         elif kind == "send":
             c.api("send_message", b"msg-%s-%d" % (act[1].encode(), a["sent"]))
             a["sent"] += 1
